@@ -297,8 +297,8 @@ func (f *file) ReadBlobAt(length int, off int64) (b blob.Blob, n int, err error)
 		}
 		b, err = blob.View(data, off, end)
 		if err != nil {
-			if int64(data.Len()) < end && attempt < 8 {
-				// truncated through another handle since the length was read: read what is left
+			if attempt < 8 {
+				// the bounds come from the length read above: truncated through another handle since. Read what is left.
 				continue
 			}
 			return nil, 0, err
@@ -380,22 +380,28 @@ func (f *file) writeBlobAt(op string, p blob.Blob, off int64) (n int, err error)
 		// nothing to write, don't grow the file up to 'off'
 		return 0, nil
 	}
-	endIndex := off + int64(p.Len())
-	if int64(f.Size()) < endIndex {
-		data, err := f.Data()
-		if err != nil {
-			return 0, &hackpadfs.PathError{Op: op, Path: f.path, Err: err}
-		}
-		err = blob.Grow(data, endIndex-int64(f.Size()))
-		if err != nil {
-			return 0, &hackpadfs.PathError{Op: op, Path: f.path, Err: err}
-		}
-	}
 	data, err := f.Data()
 	if err != nil {
 		return 0, &hackpadfs.PathError{Op: op, Path: f.path, Err: err}
 	}
-	n, err = blob.Set(data, p, off)
+	for attempt := 0; ; attempt++ {
+		if f.flag&hackpadfs.FlagAppend != 0 {
+			off = int64(data.Len())
+		}
+		endIndex := off + int64(p.Len())
+		if size := int64(data.Len()); size < endIndex {
+			err = blob.Grow(data, endIndex-size)
+			if err != nil {
+				return 0, &hackpadfs.PathError{Op: op, Path: f.path, Err: err}
+			}
+		}
+		n, err = blob.Set(data, p, off)
+		if err != nil && attempt < 8 {
+			// the only way Set fails here: truncated through another handle between the Grow and the Set. Make room again.
+			continue
+		}
+		break
+	}
 	if err != nil {
 		return n, &hackpadfs.PathError{Op: op, Path: f.path, Err: err}
 	}
